@@ -249,7 +249,7 @@ func (e *absEnv) val(fr *absFrame, v ssa.Value) aval {
 		// a variable with one whole-value initialiser (a slice or map literal, a call over literals)
 		if t.Pkg != nil && isModPkg(t.Pkg.Pkg.Path()) && theProgram != nil && globalDepth < 4 && !assignedOutsideInit(t) {
 			globalDepth++
-			v, und := evalGlobal(theProgram, strings.TrimPrefix(strings.TrimPrefix(t.Pkg.Pkg.Path(), modPath), "/"), t.Name())
+			v, und := evalGlobalWith(theProgram, strings.TrimPrefix(strings.TrimPrefix(t.Pkg.Pkg.Path(), modPath), "/"), t.Name(), e.ext)
 			globalDepth--
 			if und == "" && v != nil {
 				if _, isUnk := v.(aunk); !isUnk {
@@ -1176,6 +1176,11 @@ func (e *absEnv) globalInit(g *ssa.Global) *aobj {
 // init function (the instructions the stored value is computed from, including the element stores of composite
 // literals) is executed abstractly, everything else in init is skipped.
 func evalGlobal(p *Program, rel, name string) (aval, string) {
+	return evalGlobalWith(p, rel, name, nil)
+}
+
+// evalGlobalWith: as evalGlobal, with the caller's call oracle (the initialiser may call what the rule models).
+func evalGlobalWith(p *Program, rel, name string, ext func(string, []aval) (aval, bool)) (aval, string) {
 	pk := p.Pkg(rel)
 	if pk == nil {
 		return nil, "package not loaded"
@@ -1245,7 +1250,7 @@ func evalGlobal(p *Program, rel, name string) (aval, string) {
 		}
 	}
 	addV(stop.Val)
-	env := &absEnv{globals: map[string]*aobj{}, noFork: true, maxSteps: 200000, sliceFn: init, sliceSet: set, sliceStop: stop}
+	env := &absEnv{globals: map[string]*aobj{}, noFork: true, maxSteps: 200000, sliceFn: init, sliceSet: set, sliceStop: stop, ext: ext}
 	res, und := env.run(init, nil)
 	return res, und
 }
@@ -1269,4 +1274,21 @@ func assignedOutsideInit(g *ssa.Global) bool {
 		}
 	}
 	return found
+}
+
+// runFunc evaluates a function value (a closure obtained from an earlier evaluation) on args.
+func (e *absEnv) runFunc(f afunc, args []aval) (res aval, undecided string) {
+	defer func() {
+		if r := recover(); r != nil {
+			if a, ok := r.(absAbort); ok {
+				undecided = a.why
+				return
+			}
+			undecided = fmt.Sprintf("the abstract evaluator could not handle a construct (%v)", r)
+		}
+	}()
+	if e.maxSteps == 0 {
+		e.maxSteps = 20000
+	}
+	return e.call(f.fn, args, f.free, 0), ""
 }
